@@ -368,7 +368,13 @@ def xright(from_str, num_chars=1):
 
 
 FUNCTIONS['RIGHT'] = wrap_ufunc(xright, **_kw0)
-FUNCTIONS['TRIM'] = wrap_ufunc(str.strip, **_kw1)
+
+
+def xtrim(text):
+    return ' '.join(filter(None, text.split(' ')))
+
+
+FUNCTIONS['TRIM'] = wrap_ufunc(xtrim, **_kw1)
 FUNCTIONS['UPPER'] = wrap_ufunc(str.upper, **_kw1)
 
 
